@@ -192,6 +192,12 @@ def f(u):
     return 2 * np.arccos(x)
 '''
 
+_POSITIVE_DEGEN = '''
+def calc_params(self, utry):
+    t = np.arcsin(np.abs(utry[0, 1]))
+    return [t, np.angle(utry[0, 0] / np.cos(t))]
+'''
+
 
 def _is_ratio(e: ast.AST) -> bool:
     """a / np.sqrt(a ** 2 + b ** 2 [+ ...]) with `a` among the squares."""
@@ -288,6 +294,18 @@ def rule_degen(ctx: Ctx, rep: Report, gates: list[ClassInfo],
                floor: int) -> None:
     R = 'DEGEN'
     n = 0
+    # the matcher is exercised on a built-in positive example on every run
+    pos = ast.parse(_POSITIVE_DEGEN).body[0]
+    hits = [
+        d for d in ast.walk(pos)
+        if isinstance(d, ast.BinOp) and isinstance(d.op, ast.Div) and any(
+            isinstance(k, ast.Call) and norm(k.func).rsplit('.', 1)[-1] in (
+                'cos', 'sin') for k in ast.walk(d.right))
+    ]
+    if len(hits) != 1:
+        from ..source import AnalysisError
+        raise AnalysisError('DEGEN no longer matches its positive example')
+    fns = 0
     for c in gates:
         f = c.methods.get('calc_params')
         if f is None:
@@ -328,6 +346,10 @@ def rule_degen(ctx: Ctx, rep: Report, gates: list[ClassInfo],
                     'wrong parameters',
                     key=norm(d.right),
                 )
-        if seen_here:
-            rep.seen(f.qualname)
-    rep.floor(R, n, floor, 'divisions by a sine / cosine in calc_params')
+        rep.seen(f.qualname)
+        fns += 1
+        if not seen_here:
+            rep.count()
+            rep.ok(R, f'{c.name}.calc_params', f.path, f.lineno,
+                   'no division by a sine / cosine of a recovered angle')
+    rep.floor(R, fns, floor, 'calc_params methods examined')
